@@ -253,7 +253,8 @@ Definition numeric_like (buf : list byte) : bool :=
   float_rx (Some 115%N) buf || float_rx (Some 102%N) buf || float_rx (Some 108%N) buf || ratio_rx buf.
 (* Symbol.needPipes (repo_fixes C03-3, C03-4): a byte needPipeMap flags - except an & in first place, which starts a
    token (&rest) but is not accepted inside one -, or a name beginning with a sign or a digit whose lower-cased
-   spelling is that of a number, or the name of the dotted-pair marker, or nil spelled in any case *)
+   spelling is that of a number, or the name of the dotted-pair marker, or nil spelled in any case, or a name beginning
+   with @ (the reader tries such a token as a time first) *)
 Definition numeric_first (b : byte) : bool := is_digit b || (b =? 43)%N || (b =? 45)%N.
 Definition flagged (name : list byte) : bool :=
   match name with
@@ -264,7 +265,8 @@ Definition need_pipes (name : list byte) : bool :=
   flagged name ||
   match name with b :: _ => numeric_first b && numeric_like (map lower name) | [] => false end ||
   match name with [46%N] => true | _ => false end ||          (* the lone dot: repo_fixes C03-9 *)
-  is_nil_tok name.                                             (* nil in any case: repo_fixes C03-10 *)
+  is_nil_tok name ||                                           (* nil in any case: repo_fixes C03-10 *)
+  match name with 64%N :: _ => true | _ => false end.          (* @...: could be read as a time, repo_fixes C03-11 *)
 (* between bars (repo_fixes C03-5): | and \ get a backslash, control bytes other than tab, newline and return
    are written \u00XX *)
 Definition pesc_byte (b : byte) : list byte :=
